@@ -92,6 +92,40 @@ P = {
          'iteration order is fed to the model); networkx is replaced by the model\'s own reachability',
     technique='Lean 4 proof (reachability induction, state-effect lemmas) + differential correspondence',
     ref='§4 C07'),
+ 'C08': dict(
+    text='Lean 4 over the builder model TCV.Config/TCV.Build (transcribed from a validated executable reference of config loading, '
+         'uses/namespaces, multi-part files, contexts, task creation, input resolution, key computation and object sharing): a config '
+         'contributes exactly its declared non-abstract non-excluded classes; an input is looked up under the declaring task\'s namespace with '
+         'the `::`-boundary test (ns_prefix_boundary) and whatever it resolves to is a task of the chain matching with namespaces compared '
+         'exactly (via the C10 theorems); a missing required input is an error that nothing later undoes, a missing optional input becomes '
+         'its default; closure queries are the inductive reachability proved for C07. Correspondence: generated pipelines x mountings x '
+         'contexts incl. a malformed stream (cycles, dangling, duplicates) and a conflict stream, full task description or error kind, real '
+         'code vs model vs executable reference; closure queries for all pairs; cycles also in name mode.',
+    note='acyclicity of a successfully built chain and node-set exactness for whole config trees are decided by correspondence + oracle (the model '
+         'recurses with fuel; the theorems are the per-step laws); patterns restricted to literal / literal.*; networkx replaced by own reachability',
+    technique='Lean 4 proof (per-step laws of the builder, reuse of C10/C07 theorems) + differential correspondence with an executable reference',
+    ref='§4 C08'),
+ 'C09': dict(
+    text='Lean 4 over TCV.Config/TCV.Build, for all data/contexts/namespaces/declarations: context_precedence (entry for exactly the config\'s '
+         'namespace over global context entry over file entry; entries of any other namespace invisible), merge_later_wins, param_value '
+         '(config value under name_in_config, else default, else missing_param; wrong type is bad_type), params_ok_iff, bad_param_is_error, '
+         'register_conflict (a name declared by two configs is the error `conflict` wherever the first declaration sits). Correspondence: '
+         'config trees x contexts (dict/file/list/nested uses, for_namespaces, repeated mounting, multi-part, YAML): every parameter of every '
+         'task and error kinds, real code vs model vs reference table; aliasing probes on the real code.',
+    note='the heap-aliasing clause (no shared mutable values) has no model counterpart and is decided on the implementation only; noninterference '
+         'between configs is structural in the model (a task\'s parameters are computed from its declaring config\'s data only) and exercised by correspondence',
+    technique='Lean 4 proof (association-list algebra, induction over declarations) + differential correspondence',
+    ref='§4 C09'),
+ 'C13': dict(
+    text='Lean 4: the registry invariant of (Multi)Chain object sharing — after any sequence of task creations two tasks are one object iff they '
+         'have the same (task name, key) (assign_spec, shared_iff_same_loc, regOK_after); finding K6 is proved on its witness in the model '
+         '(every member config builds standalone, the MultiChain of the two fails). Correspondence: lists of 2-5 configs built as MultiChain and '
+         'standalone on the real code vs the model (tasks, parameters, inputs, keys, object identity matrix across chains, incl. the mutation '
+         'of shared objects by later chains); oracles: member == standalone, one object iff same location, value in memory for other chains, force fans out.',
+    note='partial (K6): "same as standalone" holds only when no computation is shared across member chains under different namespaces (the class '
+         'predicate of K6, reported as KNOWN-FINDING incl. its silent optional-input variant); values/forcing across chains rest on the C01/C07 machine theorems',
+    technique='Lean 4 proof (registry invariant) + proved counterexample + differential correspondence',
+    ref='§4 C13'),
 }
 
 checks, na = [], []
